@@ -1,4 +1,5 @@
 import BqVerif.Model.QasmPrint
+import BqVerif.Proofs.QasmInline
 /-! A decidable arithmetic (`Int`) to evaluate the model inside the kernel: used only for
 the `_witness` theorems, which show that a full-strength statement fails on a concrete input. -/
 namespace BqVerif.Qasm
@@ -34,19 +35,6 @@ def Op.meas {V : Type} : Op V → List (Nat × String × Nat)
 def Op.params {V : Type} : Op V → List V
   | .prim _ _ ps => ps
   | _ => []
-
-mutual
-/-- primitive operations of an op after unfolding blocks (locations composed) -/
-def Op.flat {V : Type} : Op V → List (String × List Nat × List V)
-  | .prim g loc ps => [(g, loc, ps)]
-  | .block _ _ body loc => (flatList body).map fun (g, l, ps) => (g, l.map (loc.getD · 0), ps)
-  | .barrier _ => []
-  | .measure _ _ => []
-  | .reset _ => []
-def flatList {V : Type} : List (Op V) → List (String × List Nat × List V)
-  | [] => []
-  | o :: os => o.flat ++ flatList os
-end
 
 /-- (number of qubits, primitive gate applications) of a decoded program -/
 def Decoded.summary {V : Type} (d : Decoded V) : Nat × List (String × List Nat × List V) :=
